@@ -284,7 +284,7 @@ def playback(dst, env, o):
     generated test against the real code (cargo kani playback)."""
     cmd = ["cargo", "kani", "-Z", "function-contracts", "-Z", "stubbing", "-Z", "concrete-playback",
            "--concrete-playback=print", "--harness", o["harness"], "--output-format", "terse"]
-    p = subprocess.run(cmd, cwd=dst, env=env, capture_output=True, text=True, timeout=900)
+    p = subprocess.run(cmd, cwd=dst, env=env, capture_output=True, text=True, timeout=int(os.environ.get('VERIF_PLAYBACK_TIMEOUT', '400')))
     out = p.stdout
     m = re.search(r"```\s*\n(.*?)```", out, re.S)
     if not m:
